@@ -39,6 +39,15 @@ ASSUMPTIONS = ['the documented domains are those named in the property statement
 REJECT = (ValueError, TypeError, KeyError)
 
 
+def _ename(exc):
+    """Name under which an exception counts: a subclass of ValueError / TypeError / KeyError IS one (e.g. astropy's
+    UnitConversionError is a ValueError)."""
+    for base in REJECT:
+        if isinstance(exc, base):
+            return base.__name__
+    return type(exc).__name__
+
+
 # ------------------------------------------------------------ value catalogue --
 def V(vid):
     """Fresh object for a catalogue id."""
@@ -48,6 +57,10 @@ def V(vid):
     t = {
         'i1': lambda: 1, 'f2.5': lambda: 2.5, 'np3': lambda: np.float64(3.0), 'npi4': lambda: np.int64(4),
         'f0.5': lambda: 0.5, 'f7': lambda: 7.0,
+        'i3': lambda: 3, 'i5': lambda: 5, 'np6': lambda: np.int64(6), 'i2': lambda: 2, 'f2.999': lambda: 2.999,
+        'nf2.75': lambda: np.float32(2.75), 'f2next': lambda: float(np.nextafter(2.0, 3.0)),
+        'q1sr': lambda: 1 * u.sr, 'qdeg2': lambda: 2 * u.deg ** 2, 'qas2': lambda: 3 * u.arcsec ** 2,
+        'qdegps': lambda: 1 * u.deg / u.s, 'q1s': lambda: 1 * u.s, 'qpdeg': lambda: 1 / u.deg,
         'zero': lambda: 0, 'fzero': lambda: 0.0, 'neg': lambda: -1, 'fneg': lambda: -0.5, 'nan': lambda: float('nan'),
         'inf': lambda: float('inf'), 'ninf': lambda: float('-inf'), 'npnan': lambda: np.float64('nan'),
         'str3': lambda: '3', 'none': lambda: None, 'list1': lambda: [1], 'tup1': lambda: (1.0,),
@@ -90,10 +103,15 @@ def V(vid):
 KINDS = {
     'pixsize': (['i1', 'f2.5', 'np3', 'npi4'],
                 ['zero', 'fzero', 'neg', 'fneg', 'nan', 'inf', 'ninf', 'npnan', 'str3', 'none', 'list1', 'tup1',
-                 'arr1d', 'q1deg', 'q1m', 'qdimless', 'q1pix'],
+                 'arr1d', 'q1deg', 'q1m', 'qdimless', 'q1pix', 'q1sr'],
                 ['arr0d', 'true']),
+    # number of vertices of a regular polygon: documented as >= 3
+    'nvert': (['i5', 'i3', 'np6'],
+              ['i2', 'i1', 'zero', 'neg', 'f2.5', 'f2.999', 'nf2.75', 'f2next', 'nan', 'inf', 'str3', 'none', 'list1', 'arr1d', 'q1deg'],
+              ['arr0d', 'true', 'f7']),
     'skysize': (['q1deg', 'q2.5as', 'a3am', 'q.01rad'],
-                ['i1', 'f2.5', 'q0deg', 'qneg', 'qnan', 'qinf', 'q1m', 'qarr', 'str3', 'none', 'qdimless', 'q1pix', 'list1'],
+                ['i1', 'f2.5', 'q0deg', 'qneg', 'qnan', 'qinf', 'q1m', 'qarr', 'str3', 'none', 'qdimless', 'q1pix', 'list1',
+                 'q1sr', 'qdeg2', 'qas2', 'qdegps', 'q1s', 'qpdeg'],
                 []),
     'pixcenter': (['pix12', 'pixf', 'pix00'],
                   ['pixarr2', 'pixarr1', 'pix2d', 'sky1', 'tup12', 'none', 'strx', 'arr1d'], []),
@@ -102,7 +120,7 @@ KINDS = {
     'pixverts': (['pixv3', 'pixv4', 'pixv5'], ['pix12', 'pix2d', 'skyv3', 'none', 'listpairs', 'arr1d'], []),
     'skyverts': (['skyv3', 'skyv4'], ['sky1', 'sky2d', 'pixv3', 'none', 'listpairs'], []),
     'angle': (['q30deg', 'q1rad', 'a45', 'q0deg', 'qm10am'],
-              ['f30', 'i30', 'q1m', 'qarr', 'str30deg', 'none', 'qdimless', 'q1pix'], []),
+              ['f30', 'i30', 'q1m', 'qarr', 'str30deg', 'none', 'qdimless', 'q1pix', 'q1sr', 'qdeg2', 'qas2', 'qdegps', 'q1s', 'qpdeg'], []),
     'meta': (['d_label', 'rm_inc', 'd_tag', 'd_empty'], ['d_bogus', 'd_mixed', 'l_pairs', 'strx', 'int5', 'rv_color'], ['none']),
     'visual': (['d_color', 'rv_color', 'd_lw', 'd_empty'], ['d_bogus', 'strx', 'int5', 'd_label'], ['none']),
     'pixregion': (['reg_pix', 'reg_pix2'], ['reg_sky', 'none', 'strx', 'int5', 'pix12'], []),
@@ -131,7 +149,7 @@ def _cls_table():
         t[f'Text{kind}Region'] = [('center', c)]
         t[f'Compound{kind}Region'] = [('region1', 'pixregion' if kind == P else 'skyregion'),
                                       ('region2', 'pixregion' if kind == P else 'skyregion')]
-    t['RegularPolygonPixelRegion'] = [('center', 'pixcenter'), ('radius', 'pixsize'), ('angle', 'angle')]
+    t['RegularPolygonPixelRegion'] = [('center', 'pixcenter'), ('nvertices', 'nvert'), ('radius', 'pixsize'), ('angle', 'angle')]
     return t
 
 
@@ -162,8 +180,6 @@ def construct(cls, overrides=None, extra=None):
         kw['text'] = 'hello'
     if cls.startswith('Compound'):
         kw['operator'] = operator.or_
-    if cls == 'RegularPolygonPixelRegion':
-        kw['nvertices'] = 5
     for k in ('meta', 'visual'):
         if overrides and k in overrides:
             kw[k] = V(overrides[k])
@@ -222,7 +238,7 @@ def explore_class(res, cls, tier, dedup=True, max_depth=None, run=True):
             else:
                 delattr(obj, ev[1])
         except Exception as exc:
-            return 'raise:' + type(exc).__name__
+            return 'raise:' + _ename(exc)
         return 'ok'
 
     def canon(obj):
@@ -338,7 +354,7 @@ def check_ctor(res, cls, pname, vid):
         outcome = 'ok'
     except Exception as exc:
         obj = None
-        outcome = 'raise:' + type(exc).__name__
+        outcome = 'raise:' + _ename(exc)
     res.outcome(('ctor', kind, verdict, outcome))
     if verdict == 'dontcare':
         return
@@ -412,7 +428,7 @@ def check_ctor_misc(res):
             fn()
             out = 'ok'
         except Exception as exc:
-            out = 'raise:' + type(exc).__name__
+            out = 'raise:' + _ename(exc)
         res.outcome(('ctor_misc', must_raise, out))
         res.nontriv(('ctor_misc', name))
         if must_raise and out == 'ok':
@@ -510,7 +526,7 @@ def explore_meta(res, which, tier, run=True):
             elif op == 'clear':
                 m.clear()
         except Exception as exc:
-            return 'raise:' + type(exc).__name__
+            return 'raise:' + _ename(exc)
         return 'ok'
 
     def canon(st):
@@ -583,7 +599,7 @@ def explore_meta(res, which, tier, run=True):
             out = 'ok'
         except Exception as exc:
             r = None
-            out = 'raise:' + type(exc).__name__
+            out = 'raise:' + _ename(exc)
         res.outcome((which, name, out))
         if must and out == 'ok':
             res.violation(ID, 'invalid_key_accepted', case, f'{which} {name}: accepted')
@@ -631,7 +647,7 @@ def explore_regions(res, tier, run=True):
             elif ev[0] == 'reverse':
                 obj.reverse()
         except Exception as exc:
-            return 'raise:' + type(exc).__name__
+            return 'raise:' + _ename(exc)
         return 'ok'
 
     def canon(obj):
@@ -679,7 +695,7 @@ def explore_regions(res, tier, run=True):
             Regions([V(v) for v in arg])
             out = 'ok'
         except Exception as exc:
-            out = 'raise:' + type(exc).__name__
+            out = 'raise:' + _ename(exc)
         if must and out == 'ok':
             res.violation(ID, 'nonregion_accepted', case, f'Regions({arg}) accepted')
         elif must and out.split(':')[1] not in ('TypeError', 'ValueError'):
